@@ -388,6 +388,47 @@ def val_to_lean(v) -> str:
 
 
 # ---------------------------------------------------------------------------
+# (allowed numbers of positional arguments, allowed keyword names) of every builtin / library call the translation tables
+# cover; a call outside its row is not silently approximated but refused (obligation cannot be generated)
+CALL_SHAPES = {
+    "sorted": ({1}, {"key", "reverse"}), "tuple": ({0, 1}, set()), "list": ({0, 1}, set()), "set": ({0, 1}, set()), "dict": ({0, 1}, set()),
+    "zip": ({1, 2}, set()), "range": ({1, 2}, set()), "len": ({1}, set()), "max": ({1}, set()), "int": ({1}, set()), "float": ({1}, set()),
+    "str": ({1}, set()), "enumerate": ({1, 2}, {"start"}), "reversed": ({1}, set()), "deque": ({0, 1}, set()), "Counter": ({1}, set()),
+    ".get": ({1, 2}, set()), ".items": ({0}, set()), ".values": ({0}, set()), ".keys": ({0}, set()), ".copy": ({0}, set()),
+    ".startswith": ({1}, set()), ".endswith": ({1}, set()), ".join": ({1}, set()), ".split": ({0, 1}, set()), ".splitlines": ({0}, set()),
+    ".rstrip": ({0}, set()), ".strip": ({1}, set()), ".replace": ({2}, set()), ".append": ({1}, set()), ".extend": ({1}, set()),
+    ".appendleft": ({1}, set()), ".extendleft": ({1}, set()), ".update": ({1}, set()), ".pop": ({0, 2}, set()), ".popleft": ({0}, set()),
+    ".setdefault": ({2}, set()), ".add": ({1}, set()), ".neighbors": ({1}, set()), ".number_of_nodes": ({0}, set()), ".number_of_edges": ({0}, set()),
+    ".edges": ({0}, {"data"}), ".nodes": ({0}, {"data"}), ".data": ({1}, set()), ".search": ({1}, set()), ".group": ({0}, set()),
+    ".canonical_permutation": ({0}, {"color"}), ".permute_vertices": ({1}, set()), ".add_nodes_from": ({1}, set()), ".add_edges_from": ({1}, set()),
+    "nx.Graph": ({0}, set()), "nx.get_node_attributes": ({2}, set()), "nx.relabel_nodes": ({2}, {"copy"}), "nx.convert_node_labels_to_integers": ({1}, set()),
+    "nx.density": ({1}, set()), "nx.set_node_attributes": ({2, 3}, set()), "nx.set_edge_attributes": ({2}, set()), "iGraph.from_networkx": ({1}, set()),
+    "random.seed": ({1}, set()), "random.shuffle": ({1}, set()), "re.compile": ({1}, set()), "nx.kamada_kawai_layout": ({1}, {"dim"}),
+    ".getText": ({0}, set()), ".getChildCount": ({0}, set()), ".getChild": ({1}, set()), ".format": (set(range(0, 10)), set()), ".strftime": ({1}, set()),
+}
+
+
+def check_call_shape(e: ast.Call):
+    f = e.func
+    full = ast.unparse(f)
+    key = None
+    if isinstance(f, ast.Name) and f.id in CALL_SHAPES:
+        key = f.id
+    elif full in CALL_SHAPES:
+        key = full
+    elif isinstance(f, ast.Attribute) and "." + f.attr in CALL_SHAPES:
+        key = "." + f.attr
+    if key is None:
+        return
+    npos, kws = CALL_SHAPES[key]
+    if any(isinstance(x, ast.Starred) for x in e.args):
+        if key == "zip":
+            return
+        raise Unsupported(f"starred arguments in call of {full}")
+    if len(e.args) not in npos or any((k.arg is None or k.arg not in kws) for k in e.keywords):
+        raise Unsupported(f"call shape of {full} is outside the translation table: {len(e.args)} positional, keywords {[k.arg for k in e.keywords]}")
+
+
 MUTATING_METHODS = {"append", "extend", "update", "pop", "popleft", "appendleft", "extendleft", "setdefault",
                     "add_nodes_from", "add_edges_from", "clear", "insert", "remove", "sort"}
 
@@ -864,6 +905,7 @@ class FnTranslator:
 
     # ---- calls
     def call(self, e: ast.Call) -> str:
+        check_call_shape(e)
         f = ast.unparse(e.func)
         a = e.args
         kw = {k.arg: k.value for k in e.keywords}
@@ -1059,7 +1101,7 @@ class FnTranslator:
         if name == "str":
             return f"(pyStr {self.e(a[0])})"
         if name == "enumerate":
-            start = self.e(kw["start"]) if "start" in kw else "(0 : Int)"
+            start = self.e(kw["start"]) if "start" in kw else (self.e(a[1]) if len(a) == 2 else "(0 : Int)")
             return f"(enumerate {self.atom(self.as_list(a[0]))} {start})"
         if name == "reversed":
             return f"(List.reverse {self.atom(self.as_list(a[0]))})"
@@ -1480,6 +1522,7 @@ class FnTranslator:
         return f"return {self.return_value(v)}"
 
     def call_stmt(self, c: ast.Call) -> list[str]:
+        check_call_shape(c)
         f = ast.unparse(c.func)
         a = c.args
         if f == "nx.set_node_attributes":
